@@ -27,6 +27,18 @@ SUITE = f"""Run the existing test suite with:
       (PYTHONPATH is essential: without it the tests import the original library from /repo.) The expected result, before and after your change, is exactly 85 passed, 24 failed - those 24 failures are pre-existing and expected."""
 FACTS = """Useful facts: mqtt.pdu classes are imported by name (from mqtt.pdu import CONNACK, PUBACK, ...; `import *` does not work). A protocol is obtained with MQTTFactory(profile).buildProtocol(addr) where profile is MQTTFactory.PUBLISHER, MQTTFactory.SUBSCRIBER or their bitwise or; call protocol.makeConnection(transport), protocol.connect("id", keepalive=0, cleanStart=True), then feed broker packets with protocol.dataReceived(CONNACK-bytes) etc. Use twisted.test.proto_helpers.StringTransport / StringTransportWithDisconnection (set transport.protocol = protocol; it calls connectionLost synchronously) and twisted.internet.task.Clock assigned to protocol.callLater, as the existing tests in src/mqtt/client/test do."""
 
+EXTRA = ""
+if mode == "neutral2":
+    mode = "neutral"
+    EXTRA = """IMPORTANT - be original: an earlier round of refactorings of this library already used the following reshapes, so do NOT make them the core of yours (they may appear incidentally); look for DIFFERENT, equally legitimate ways a maintainer might restructure the code:
+  - merging the four alarm-cancelling loops of doConnectionLost into one loop over a tuple of registries; `.items()` -> `.values()`; `x = w[k]; del w[k]` -> `w.pop(k)`; an extracted `_failWindow`/`_disarm` helper;
+  - try/except KeyError/else -> early return, `in` test, `dict.get` + `is None`;
+  - the connectError / doPingError closures turned into bound methods; handleCONNACK split into accepted/refused helpers; `_stopKeepalive`/`_cancelPingAlarm` helpers; `if cleanStart:` block -> early return;
+  - `while a and b` -> `while a: if not b: break`; local aliases for `self.factory.windowX[self.addr]`;
+  - a `_transmit`/`_send` helper for `transport.write`; `_makeRelease` for the PUBREL construction; merged `_retrySubscribe`/`_retryUnsubscribe`;
+  - in pdu.py: a `_stripFixedHeader` helper, `_serialize`, `_frame`/`_seal`, divmod-based encode16Int, shift-counter decodeLength.
+Ideas in other directions (only where they are provably equivalent): move logic between the state classes and the protocol class (e.g. a state method doing part of the work itself, or the protocol asking `self.state` a question), replace if/elif chains on constants by small lookup tables or the reverse, replace boolean flags by sentinel values or the reverse, use `else` clauses of loops, `enumerate`/`zip`/`reversed(list(..))` where order is provably unaffected, `functools.partial` or lambdas for timer callbacks, class-level constants for magic numbers, properties or small private accessor methods for repeated attribute chains, conditional expressions, tuple unpacking, chained comparisons, `any()`/`all()`, list/dict comprehensions, context-free reordering of guard clauses, splitting a long method into phases, inlining a trivial helper, changing which of two equivalent fields is consulted (e.g. `request.msgId` vs `response.msgId` where provably equal), etc.
+"""
 if mode == "break":
     used = []
     for f in sorted(glob.glob("/verif/seeded/%s-*/meta.json" % pid)):
@@ -64,7 +76,7 @@ YOUR TASK: refactor the library source in {wt}/src/mqtt (not its tests) in the p
   - rename locals and private helpers/attributes consistently, introduce local aliases for long attribute chains,
   - use an equivalent idiom (dict.get/pop with default vs try/except KeyError, `in` test before indexing, tuple/list/dict tables with the lookup adjusted accordingly, comprehension vs loop, augmented assignment, `is None` vs truthiness only where provably equivalent),
   - reorder statements that are independent of each other.
-Do NOT change behaviour, public API names, exception types, what is written to the transport, or the order of observable effects. Do not touch code unrelated to this property. Requirements:
+{EXTRA}Do NOT change behaviour, public API names, exception types, what is written to the transport, or the order of observable effects. Do not touch code unrelated to this property. Requirements:
   (a) the code still imports/compiles, and
   (b) the existing test suite still gives exactly the same results as before. {SUITE}
   (c) you have convinced yourself, function by function, that behaviour is identical - also on the unusual paths (connection loss at any point, duplicate or unknown acknowledgements, malformed input, boundary values, both session modes, every profile).
